@@ -16,7 +16,7 @@ LEVEL_NOTE = "trusted: NumPy/SciPy expm, vlib.fockref, Gauss-Hermite quadrature 
 TECHNIQUE = "runtime monitoring: sequential reference model of the step + exact quadrature average + Fock-space propagator oracle"
 RULE = ("cases = (n_up,n_dn) with both spins present x 1-3 Cholesky matrices x rdm1 for the shift (trial's or random) x ene0 x n_exp_terms in "
         "{4,6,10} x number of consecutive steps 1..4 x trial kind; non-trivial = fields not all zero and walkers non-orthonormal before QR")
-MIN_NONTRIVIAL = {"quick": 20, "thorough": 200}
+MIN_NONTRIVIAL = {"quick": 15, "thorough": 100}
 TIMEOUT = {"quick": 2400, "thorough": 10800}
 ASSUMPTIONS = ["unrestricted propagator (the only one defining propagate_free)", "n_dn >= 1 (per-spin constants divide by nelec[s])", "dt <= 0.02 for the ladder"]
 REQUIRED_COUNTERS = {"bookkeeping_steps": 30, "taylor": 10, "ladders": 4}
